@@ -270,7 +270,14 @@ let parse_event (t : string) : etok =
     | 'c' when String.length t > 1 && (match rest.[0] with '0'..'9' | 'a'..'f' -> true | _ -> false)
                && not (starts_with "close" t) -> Cancel
     | 'i' -> (match split_dot rest with [s; m] -> Ev (EIn (n_of_hex s, n_of_hex m)) | _ -> Bad t)
-    | 'o' -> (match split_dot rest with [s; m] -> Ev (EOut (n_of_hex s, n_of_hex m)) | _ -> Bad t)
+    | 'o' -> (match split_dot rest with
+        | [s; m] ->
+          (* reader(): only ids >= 0 are looked up (C02_dispatch_lookup); a frame on a negative id
+             reaches nobody and answers nothing *)
+          (match reader_dispatch (n_of_hex s) with
+           | DLookup sid -> Ev (EOut (sid, n_of_hex m))
+           | DEvent | DIgnore -> Cancel)
+        | _ -> Bad t)
     | 'd' ->
       (match String.index_opt rest '.' with
        | None -> Bad t
@@ -292,7 +299,7 @@ let ev_text = function
   | EDone (m, OErrAlloc) -> "d" ^ hex_of_n m ^ ".a"
   | EDone (m, OOther) -> "d" ^ hex_of_n m ^ ".x"
 
-let verdict_e2e impl =
+let verdict_e2e_base impl =
   match impl with
   | "setup-error" :: r -> "ok notrun " ^ String.concat " " r   (* counted and capped by checks/c02.py post *)
   | _ ->
@@ -366,6 +373,46 @@ let verdict_e2e impl =
                 | (m, _) :: _ -> "diff alloc-failure-without-exhaustion request=" ^ hex_of_n m
                 | [] -> "error acceptor-inconsistent")
          end)
+
+(* kind K: `K <seed> <abandon> <live> <hold>`: the model (th_run + orphaner_tick_breaks, C02_tick) says
+   whether a tick two seconds after the callers were abandoned ends the connection *)
+let model_breaks (abandon : int) (live : int) : bool =
+  let total = abandon + live in
+  let ops = List.init total (fun i -> TOp (OpAlloc (n_of_int (i + 1), n_of_int (i + 1)), N0))
+            @ List.init abandon (fun i -> TOp (OpOrphan (n_of_int (i + 1)), N0)) in
+  let (t, _) = th_run th_new ops in
+  orphaner_tick_breaks t (n_of_hex "77359400")   (* 2 s *)
+
+let verdict_threshold case impl =
+  match impl with
+  | "setup-error" :: r -> "ok notrun " ^ String.concat " " r
+  | _ ->
+  match case with
+  | [_seed; a; l; _hold] ->
+    let abandon = int_of_string a and live = int_of_string l in
+    let expect = model_breaks abandon live in
+    let toks = match List.find_opt (starts_with "T=") impl with
+      | Some t -> String.split_on_char ',' (String.sub t 2 (String.length t - 2)) | None -> [] in
+    let closed = List.exists (starts_with "close") toks in
+    let too_many = List.length (List.filter (fun t -> starts_with "d" t &&
+        (match String.index_opt t '.' with
+         | Some i -> String.sub t (i + 1) (String.length t - i - 1) = "xTooManyOrphanedStreamIds" | None -> false)) toks) in
+    let rows = List.length (List.filter (fun t -> starts_with "d" t &&
+        (match String.index_opt t '.' with Some i -> i + 1 < String.length t && t.[i + 1] = 'r' | None -> false)) toks) in
+    if expect then begin
+      (* the history up to the close is judged by the acceptor; afterwards every live caller must
+         have failed with the orphan error, none may hold rows *)
+      match verdict_e2e_base impl with
+      | v when starts_with "viol" v || starts_with "error" v -> v
+      | _ ->
+        if closed && too_many = live && rows = 0 then "ok"
+        else Printf.sprintf "diff orphan-threshold model=break closed=%b failed=%d/%d rows=%d" closed too_many live rows
+    end else begin
+      match verdict_e2e_base impl with
+      | "ok" -> if rows = live then "ok" else Printf.sprintf "diff orphan-threshold model=no-break rows=%d/%d" rows live
+      | v -> v
+    end
+  | _ -> "error bad-K-case"
 
 (* ------------------------------------------------------------------ reader cases (kind O) *)
 let unhex (h : string) : int array =
@@ -502,7 +549,8 @@ let verdict case impl =
   match case with
   | [] -> "error empty-case"
   | "T" :: optoks -> verdict_timed optoks impl
-  | ("P" | "R" | "X" | "G") :: _ -> verdict_e2e impl
+  | ("P" | "R" | "X" | "G" | "N" | "S") :: _ -> verdict_e2e_base impl
+  | "K" :: rest -> verdict_threshold rest impl
   | "O" :: rest -> verdict_reader rest impl
   | _kind :: optoks -> verdict_sm optoks impl
 
